@@ -9,7 +9,11 @@ TERMS = {"a": "a", "b": "b", "c": "c", "comma": ","}
 
 
 def item_text(it):
-    s = it["sym"] + it["mult"]
+    if it.get("kind") == "grp":
+        base = "(" + " | ".join(" ".join(item_text(i) for i in alt) if alt else "EMPTY" for alt in it["alts"]) + ")"
+    else:
+        base = it["sym"]
+    s = base + it["mult"]
     if it["mult"] and it.get("greedy"):
         s += "!"
     if it.get("sep"):
@@ -23,9 +27,75 @@ def text(rules, used_terms=None):
     out = ""
     for name, alts in rules:
         out += "%s: %s;\n" % (name, " | ".join(" ".join(item_text(i) for i in alt) if alt else "EMPTY" for alt in alts))
-    terms = used_terms or sorted({i["sym"] for _, alts in rules for alt in alts for i in alt if i["sym"] in TERMS} |
-                                 {i["sep"] for _, alts in rules for alt in alts for i in alt if i.get("sep")})
-    out += "terminals\n" + "".join('%s: "%s";\n' % (t, TERMS[t]) for t in terms)
+    terms = used_terms or sorted(_terms_of([a for _, alts in rules for a in alts]))
+    if terms:
+        out += "terminals\n" + "".join('%s: "%s";\n' % (t, TERMS[t]) for t in terms)
+    return out
+
+
+def _terms_of(alts):
+    out = set()
+    for alt in alts:
+        for i in alt:
+            if i.get("sep"):
+                out.add(i["sep"])
+            if i.get("kind") == "grp":
+                out |= _terms_of(i["alts"])
+            elif i["sym"] in TERMS:
+                out.add(i["sym"])
+    return out
+
+
+def to_tla(rules):
+    """the AST in the record shape of spec/Desugar.tla"""
+    def item(it):
+        d = {"kind": it.get("kind", "sym"), "mult": it["mult"], "sep": it.get("sep") or "", "greedy": bool(it.get("greedy"))}
+        if d["kind"] == "grp":
+            d["id"] = it["id"]
+            d["alts"] = [[item(i) for i in alt] for alt in it["alts"]]
+        else:
+            d["sym"] = it["sym"]
+        return d
+    return [{"name": n, "alts": [[item(i) for i in alt] for alt in alts]} for n, alts in rules]
+
+
+def strip_greedy(rules):
+    import copy
+
+    r = copy.deepcopy(rules)
+
+    def walk(alts):
+        for alt in alts:
+            for it in alt:
+                it["greedy"] = False
+                if it.get("kind") == "grp":
+                    walk(it["alts"])
+    for _, alts in r:
+        walk(alts)
+    return r
+
+
+def add_groups(rules, rng, p_group=0.3):
+    """wrap random sub-sequences of alternatives into parenthesised groups (optionally with a second alternative and a multiplicity)"""
+    k = [0]
+    out = []
+    for name, alts in rules:
+        nalts = []
+        for alt in alts:
+            if len(alt) >= 2 and rng.random() < p_group:
+                i = rng.randrange(len(alt) - 1)
+                j = rng.randrange(i + 1, len(alt)) + 1
+                k[0] += 1
+                inner = [alt[i:j]]
+                if rng.random() < 0.4:
+                    inner.append([{"sym": rng.choice(["a", "b", "c"]), "mult": "", "sep": None, "name": None, "op": "=", "greedy": False}])
+                grp = {"kind": "grp", "id": "G%d" % k[0], "alts": inner, "mult": rng.choice(["", "", "+", "*", "?"]), "sep": None,
+                       "name": None, "op": "=", "greedy": False, "sym": "G%d" % k[0]}
+                if grp["mult"] in "+*" and grp["mult"] and rng.random() < 0.3:
+                    grp["sep"] = "comma"
+                alt = alt[:i] + [grp] + alt[j:]
+            nalts.append(alt)
+        out.append((name, nalts))
     return out
 
 
@@ -47,6 +117,21 @@ def from_plain(g, rng, p_mult=0.35, p_name=0.0, p_sep=0.4):
             alt.append(it)
         by[lhs].append(alt)
     rules = [(n, by[n]) for n in order]
+    # A repetition over a symbol whose result can be None (a rule that is just an optional item) is not generated: the built-in
+    # collect actions drop None elements after the first, which the documentation does not describe either way (DESIGN 5 leniency).
+    noneable = set()
+    ch = True
+    while ch:
+        ch = False
+        for n, alts in rules:
+            if n not in noneable and any(len(a) == 1 and (a[0]["mult"] == "?" or (a[0]["mult"] == "" and a[0]["sym"] in noneable)) for a in alts):
+                noneable.add(n)
+                ch = True
+    for _, alts in rules:
+        for a in alts:
+            for it in a:
+                if it["mult"] in ("+", "*") and it["sym"] in noneable:
+                    it["mult"], it["sep"] = "", None
     if p_name:
         for name, alts in rules:
             if rng.random() < p_name:
@@ -64,13 +149,13 @@ def derive(rules, rng, sym, depth, out, budget):
     """random derivation of terminal texts; returns False when the budget is exhausted"""
     if len(out) > budget:
         return False
-    if sym in TERMS:
+    if isinstance(sym, str) and sym in TERMS:
         out.append(TERMS[sym])
         return True
-    alts = dict(rules)[sym]
+    alts = sym["alts"] if isinstance(sym, dict) else dict(rules)[sym]
     if depth <= 0:
         # prefer alternatives without nonterminals
-        flat = [a for a in alts if all(i["sym"] in TERMS or i["mult"] in ("*", "?") for i in a)]
+        flat = [a for a in alts if all((i.get("kind") != "grp" and i["sym"] in TERMS) or i["mult"] in ("*", "?") for i in a)]
         alts = flat or alts
         if depth < -6:
             return False
@@ -78,15 +163,15 @@ def derive(rules, rng, sym, depth, out, budget):
     for it in alt:
         n = 1
         if it["mult"] == "?":
-            n = rng.choice([0, 1]) if depth > 0 or it["sym"] in TERMS else 0
+            n = rng.choice([0, 1]) if depth > 0 or (it.get("kind") != "grp" and it["sym"] in TERMS) else 0
         elif it["mult"] == "*":
-            n = rng.choice([0, 0, 1, 2]) if depth > 0 or it["sym"] in TERMS else 0
+            n = rng.choice([0, 0, 1, 2]) if depth > 0 or (it.get("kind") != "grp" and it["sym"] in TERMS) else 0
         elif it["mult"] == "+":
             n = rng.choice([1, 1, 2, 3])
         for k in range(n):
             if k and it.get("sep"):
                 out.append(TERMS[it["sep"]])
-            if not derive(rules, rng, it["sym"], depth - 1, out, budget):
+            if not derive(rules, rng, it if it.get("kind") == "grp" else it["sym"], depth - 1, out, budget):
                 return False
     return True
 
